@@ -7,6 +7,7 @@ package main
 // are added and the packages are loaded again for SSA construction.
 
 import (
+	"regexp"
 	"fmt"
 	"go/ast"
 	"go/parser"
@@ -1149,6 +1150,7 @@ func generateOverlay(pkg *packages.Package, contracts []*FuncContract, regions [
 	// packages named directly in contract expressions (io.EOF, strings.Contains ...) : imported under the name the
 	// package's own files use
 	bodyText := body.String()
+	var aliasRewrites [][2]string
 	for _, f := range pkg.Syntax {
 		for _, im := range f.Imports {
 			path := strings.Trim(im.Path.Value, "\"")
@@ -1161,7 +1163,12 @@ func generateOverlay(pkg *packages.Package, contracts []*FuncContract, regions [
 			if name == "" || name == "_" || name == "." {
 				continue
 			}
-			if _, have := g.imports[path]; have {
+			if real, have := g.imports[path]; have {
+				// already imported under the package's own name (types of it occur in signatures): occurrences of
+				// the file's alias in contract expressions are rewritten to that name
+				if real != name {
+					aliasRewrites = append(aliasRewrites, [2]string{name, real})
+				}
 				continue
 			}
 			used := false
@@ -1219,7 +1226,11 @@ func generateOverlay(pkg *packages.Package, contracts []*FuncContract, regions [
 		// replay confirm less
 		sb.WriteString("func vqSame[T any](a, b T) bool {\n\treturn fmt.Sprintf(\"%p\", any(a)) == fmt.Sprintf(\"%p\", any(b)) || fmt.Sprint(any(a)) == fmt.Sprint(any(b))\n}\n\n")
 	}
-	sb.WriteString(body.String())
+	finalBody := body.String()
+	for _, rw := range aliasRewrites {
+		finalBody = regexp.MustCompile(`(^|[^A-Za-z0-9_.])`+regexp.QuoteMeta(rw[0])+`\.`).ReplaceAllString(finalBody, "${1}"+rw[1]+".")
+	}
+	sb.WriteString(finalBody)
 	return sb.String(), nil
 }
 
